@@ -24,5 +24,7 @@ INVARIANT C18_DemandWithinStatement
 INVARIANT C18_ExpZero
 INVARIANT C18_CapSelf
 INVARIANT C18_IntForms
+INVARIANT C18_FloatForms
+INVARIANT C18_Carriers
 INVARIANT C18_VecAnchorUnit
 INVARIANT C18_VecAnchorPole
